@@ -77,6 +77,12 @@ def _is_view_of(node, roots):
     return False
 
 
+# module-level callables that receive `self` / the target and only READ it (hand-reviewed)
+READERS = {"zip", "enumerate", "sorted", "reversed", "map", "any", "all", "max", "min", "sum", "abs", "type", "isinstance", "issubclass", "str", "repr", "getattr", "hasattr", "float", "int", "complex", "bool", "len", "id",
+           "iter", "list", "tuple", "take", "unyt_array", "unyt_quantity", "Unit", "_sanitize_unit_system", "_em_conversion",
+           "_get_conversion_factor", "_check_em_conversion", "_iterable", "_coerce_iterable_units", "print", "super",
+           "_wrap_ufunc_output", "_apply_power_mapping", "_get_binary_op_return_class", "_sanitize_units_convert"}
+
 VIEW_HELPERS = {"_float_out_view"}     # module-level helpers that return a view of their argument's buffer
 
 
@@ -128,12 +134,30 @@ _AUG = {ast.Mult: "*=", ast.Add: "+=", ast.Sub: "-=", ast.Div: "/=", ast.FloorDi
 _MUTATING_NDARRAY_METHODS = {"fill", "sort", "partition", "put", "itemset", "resize", "setfield", "setflags", "byteswap"}
 
 
+def _rooted(node, al):
+    """`X`, `X.a`, `X.a.b`, `X.a[...]` … for X a target name: the dotted text, else None"""
+    if _name_in(node, al):
+        return node.id
+    if isinstance(node, ast.Attribute):
+        b = _rooted(node.value, al)
+        return None if b is None else f"{b}.{node.attr}"
+    if isinstance(node, ast.Subscript):
+        b = _rooted(node.value, al)
+        return None if b is None else f"{b}[]"
+    return None
+
+
 def _write_target(t, al, root):
-    """describe an assignment target that writes to the root object or its buffer"""
-    if isinstance(t, ast.Attribute) and _name_in(t.value, al):
-        return f"{t.value.id}.{t.attr}"
-    if isinstance(t, ast.Subscript) and _name_in(t.value, al):
-        return f"{t.value.id}[]"
+    """describe an assignment target that writes to the root object, to an object it holds
+    (`self.units.expr = …`, `self.__dict__[…] = …`) or to its buffer"""
+    if isinstance(t, ast.Attribute):
+        b = _rooted(t.value, al)
+        if b is not None:
+            return f"{b}.{t.attr}"
+    if isinstance(t, ast.Subscript):
+        b = _rooted(t.value, al)
+        if b is not None:
+            return f"{b}[]"
     if isinstance(t, (ast.Tuple, ast.List)):
         for e in t.elts:
             w = _write_target(e, al, root)
@@ -215,6 +239,22 @@ def events(fn, root, fallible, inplace_calls, extra_fallible_subscripts=(), help
                     and short in _MUTATING_NDARRAY_METHODS):
                 out.append((end, 1, f"W:{who(node.func.value.id)}.{short}()"))
                 continue
+            # attribute writes spelled as calls ---------------------------------------------
+            if callee in ("setattr", "object.__setattr__", "delattr") and node.args and _refers(node.args[0], al):
+                out.append((end, 1, f"W:{callee}({who(_refname(node.args[0], al))})"))
+                continue
+            if (isinstance(node.func, ast.Attribute) and node.func.attr in ("update", "setdefault", "pop", "clear")
+                    and isinstance(node.func.value, ast.Attribute) and node.func.value.attr == "__dict__"
+                    and _rooted(node.func.value.value, al) is not None):
+                out.append((end, 1, f"W:{_rooted(node.func.value.value, al)}.__dict__.{node.func.attr}()"))
+                continue
+            # a module-level function that receives the target and is not on the reviewed list of readers:
+            # it may write to it — reported as a write until someone has looked at it
+            if (isinstance(node.func, ast.Name) and callee not in READERS and callee not in fallible
+                    and callee not in inplace_calls and not (helpers and callee in helpers)
+                    and any(_name_in(a, al) for a in list(node.args) + [k.value for k in node.keywords])):
+                out.append((end, 1, f"W:?call:{callee}({who(root)})"))
+                continue
             # in-place routines called on the same target --------------------------------
             if callee in inplace_calls or (short in inplace_calls and any(_name_in(a, {root}) for a in node.args)):
                 out.append((end, 1, f"C:{callee}"))
@@ -234,6 +274,36 @@ def events(fn, root, fallible, inplace_calls, extra_fallible_subscripts=(), help
             out.append(((node.end_lineno, node.end_col_offset), 2, f"F:Equivalence({mode})"))
     out.sort(key=lambda e: (e[0], e[1]))
     return [e[2] for e in out]
+
+
+def raise_guards(fn):
+    """[(exception, guard)] for every `raise` of a function, in source order; `guard` = the tests of the
+    enclosing `if`s from the outermost inwards (`not (…)` for an else branch), joined by ` && `"""
+    out = []
+
+    def walk(stmts, conds):
+        for st in stmts:
+            if isinstance(st, ast.Raise):
+                exc = st.exc
+                nm = _dotted(exc.func) if isinstance(exc, ast.Call) else (_dotted(exc) if exc is not None else "reraise")
+                out.append((st.lineno, nm, " && ".join(conds) if conds else "always"))
+            elif isinstance(st, ast.If):
+                t = ast.unparse(st.test)
+                walk(st.body, conds + [t])
+                walk(st.orelse, conds + [f"not ({t})"])
+            elif isinstance(st, (ast.For, ast.While, ast.With)):
+                walk(st.body, conds)
+                walk(getattr(st, "orelse", []), conds)
+            elif isinstance(st, ast.Try):
+                walk(st.body, conds)
+                for h in st.handlers:
+                    walk(h.body, conds + ["except"])
+                walk(st.orelse, conds)
+                walk(st.finalbody, conds)
+
+    walk(fn.body, [])
+    out.sort()
+    return [(n, c) for _l, n, c in out]
 
 
 # what may raise in the conversion code (callee short names)
@@ -372,6 +442,18 @@ def generate(X):
     simplify_copies = not any(e.startswith("W:") for e in orders["unitSimplify"])
     L.append("/-- `Unit.simplify` builds a new unit instead of assigning `self.expr` (fix C18-02) -/\n"
              f"def simplifyCopies : Bool := {'true' if simplify_copies else 'false'}\n")
+    guards = {"convertToUnits": raise_guards(_method(arr, "unyt_array", "convert_to_units")),
+              "convertToEquivalent": raise_guards(_method(arr, "unyt_array", "convert_to_equivalent")),
+              "floatOutView": raise_guards(hf) if hf is not None else [],
+              "setitem": raise_guards(_method(arr, "unyt_array", "__setitem__")),
+              "unitSimplify": raise_guards(_method(uo, "Unit", "simplify"))}
+    L.append("/-- (routine, exception, guard) of every `raise` of the in-place routines: the guard is the text of the\n"
+             "    enclosing `if` tests (outermost first; `not (…)` for an else branch) -/\n"
+             "def raiseGuards : List (String × String × String) := [\n  "
+             + ",\n  ".join(f"({X.lstr(r)}, {X.lstr(n)}, {X.lstr(c)})" for r, gs in guards.items() for n, c in gs) + "]\n")
+    # the read-only refusals are recognised by their CONDITION, not by counting raises
+    ro_guard = ro_guard and any(n == "ValueError" and c.endswith("not values.flags.writeable") for n, c in guards["convertToUnits"])
+    out_ro_guard = out_ro_guard and any(n == "ValueError" and c.endswith("not out.flags.writeable") for n, c in guards["floatOutView"])
     reenters = "W:multiply(out=out)" in orders["arrayUfunc"]
     L.append("/-- the `out=` post-multiplication of `__array_ufunc__` is `multiply(out, mul, out=out)` on the unyt array\n"
              "    (a nested `__array_ufunc__` call) rather than on the raw buffer `out_func` -/\n"
@@ -381,4 +463,5 @@ def generate(X):
     return {"orders": orders, "methodFacts": [[m, ws, cs] for m, ws, cs in facts],
             "equivalenceOuts": [[c, outs, d] for c, outs, d in eq_rows], "getOutBody": get_out, "fixupReenters": reenters,
             "simplifyCopies": simplify_copies, "ctuUnitsLast": units_last, "ctuReadonlyGuard": ro_guard, "outReadonlyGuard": out_ro_guard,
-            "promoteAfterChecks": promote_after_checks}
+            "promoteAfterChecks": promote_after_checks,
+            "raiseGuards": [[r, n, c] for r, gs in guards.items() for n, c in gs]}
